@@ -197,6 +197,7 @@ func Execute(h *History, o ExecOpts) (tr *Trace) {
 			tr.Panic = fmt.Sprint(p)
 		}
 	}()
+	var rawBuf [128]byte
 	r, err := libaudit.NewReassembler(h.MaxInFlight, time.Duration(h.TimeoutNs), rec)
 	if err != nil || r == nil {
 		tr.NewErr = true
@@ -222,7 +223,14 @@ func Execute(h *History, o ExecOpts) (tr *Trace) {
 			tr.pushedPtr[m] = k
 			r.PushMessage(m)
 		case OpPushRaw:
-			st.Err = r.Push(auparse.AuditMessageType(op.Type), []byte(RawBody(op.Seq, k))) != nil
+			// the caller's buffer is reused for the next datagram, as a netlink receive loop does:
+			// Push documents that it copies the data, so what is delivered later must be the text
+			// pushed, whatever happens to the buffer afterwards
+			n := copy(rawBuf[:], RawBody(op.Seq, k))
+			st.Err = r.Push(auparse.AuditMessageType(op.Type), rawBuf[:n]) != nil
+			for i := range rawBuf[:n] {
+				rawBuf[i] = 'Z'
+			}
 		case OpPushBad:
 			st.Err = r.Push(auparse.AuditMessageType(op.Type), []byte(fmt.Sprintf("audit(17000x.000:%d) opid=%d", op.Seq, k))) != nil
 		case OpPushNil:
